@@ -38,6 +38,7 @@ int vs_tid(void);
 int vs_thread_alive(int tid); /* the controlled OS thread with this id has not exited */
 void vs_set_event_fn(void (*fn)(int kind, const void *p1, const void *p2, long v)); /* called for every runtime event before it is logged (monitors) */
 void vs_set_atomic_fn(void (*fn)(int kind, int width, const volatile void *addr, uint64_t a, uint64_t b)); /* called for every atomic op of a controlled thread just before it executes and before it is logged; kind: 1 load 2 store 3 clear 4 tas 5 cas ... (OPN[] in vsched.c); may call vs_name/vs_note */
+void vs_set_mutex_fn(void (*fn)(char tag, const char *what, const void *obj)); /* called after every logged `M`/`R`/`W` line of a virtual pthread mutex / condition variable that lives inside a named object (tag, "lock"|"unlock"|"condwait"|"condret"|"cond", address of the pthread object); runs on the thread that performs the operation while nobody else runs; may vs_note (e.g. a plain state word the mutex protects) */
 void vs_autoname_units(int on); /* name every work unit T<n> at its create event (E 1), unname at free (E 3) */
 void vs_set_unit_fn(const void *(*fn)(void)); /* returns the current work unit descriptor or NULL */
 const char *vs_addr_name(const void *p, char *buf, size_t n);
